@@ -25,6 +25,9 @@ CORPUS = [
     ('fn ping(n: Int) { let h = pong  h(n) }\nfn pong(n: Int) { ping(n) + 1 }\n', 'pong(n:', 'fn pong(Int) -> Int'),
     ('fn apply(f, x) { f(x) }\nfn even(n: Int) { case n { 0 -> True  _ -> apply(odd, n - 1) } }\nfn odd(n: Int) { case n { 0 -> False  _ -> even(n - 1) } }\n', 'odd(n:', 'fn odd(Int) -> Bool'),
     ('fn walk(l: List(Int)) { case l { [] -> 0  [h, ..t] -> h + step(t) } }\nfn step(l: List(Int)) { let again = walk  again(l) }\n', 'again =', 'fn(List(Int)) -> Int'),
+    # the first mention of the other function's name is a shadowing local, the second the function itself
+    ('fn f(x: Int) { let y = { let g = x  g }  g(y) }\nfn g(n: Int) { f(n) + 1 }\n', 'g(n:', 'fn g(Int) -> Int'),
+    ('fn f(x: Int) { let y = { let g = x  g }  g(y) }\nfn g(n: Int) { f(n) + 1 }\n', 'f(x:', 'fn f(Int) -> Int'),
 ] + [
     # a type the module declares under the name of a prelude type IS the annotation (a record of its own: the field access must type)
     ('pub type %s { Mine(inner: Float) }\nfn f(v: %s) { let w = v.inner  w }\n' % (n_, n_), 'w =', 'Float') for n_ in ('Int', 'Float', 'String', 'BitArray', 'Bool', 'Nil', 'List', 'Result')
@@ -118,7 +121,7 @@ def run_kernel(chk, tier, jobs, props):
         found += [v for v in res.violations if any(w.startswith(tuple(props)) for w in v['why'])]
     res, complete = explore.explore(deporder.complete_factory, (), jobs=1)
     chk.add_run('dependency_order_query: completeness - every identifier of the body that resolves to a function (callee, argument, let-bound reference; which ones resolve is symbolic) yields an edge', res, complete,
-                {'identifiers': 3}, nontrivial_classes=lambda c: c.startswith('edges:') and c != 'edges:0')
+                {'identifiers': 4}, nontrivial_classes=lambda c: c.startswith('edges:') and c != 'edges:0')
     found += [v for v in res.violations if any(w.startswith(tuple(props)) for w in v['why'])]
     res, complete = explore.explore(unifier.shadow_factory, (), jobs=1)
     chk.add_run('make_ty_from_typeref on every unqualified prelude type name: a type of that name in the module scope (presence symbolic) is the annotation, the prelude meaning is the fallback', res, complete,
